@@ -132,7 +132,13 @@ def gen_eom(rng: random.Random, ch_bw: float) -> dict:
     else:
         ctrl = [_pick(rng, ["RED", "BLUE"])]
     return {
-        "mod_bandwidth": _pick(rng, [20.0, 30.0, 40.0, 60.0]),
+        # usually faster than the channel itself; sometimes (legal but exotic)
+        # slower, which is where mode-dependent fall times matter most
+        "mod_bandwidth": (
+            _pick(rng, [ch_bw * 2.5, ch_bw * 5.0, max(40.0, ch_bw), max(60.0, ch_bw)])
+            if rng.random() < 0.9
+            else ch_bw / 2.0
+        ),
         "custom_buffer_time": _pick(rng, [None, None, 12, 40, 150, 300]),
         "limiting_beam": lim,
         "max_limiting_amp": _pick(rng, [15.0, 30.0, 40.0]) * TWO_PI,
